@@ -177,7 +177,12 @@ def gen_sites():
     """hash-iteration sites and panic sites of non-test code"""
     files = ["assertions.rs", "de_bruijn.rs", "equality.rs", "error.rs", "evaluator.rs", "format.rs", "main.rs",
              "normalizer.rs", "parser.rs", "term.rs", "token.rs", "tokenizer.rs", "type_checker.rs", "unifier.rs"]
-    hash_iter, panics = [], []
+    hash_iter, panics, nondet = [], [], []
+    NONDET = [(r"\bSystemTime\b|\bInstant\b|\bstd::time\b|\bDuration\b", "time"), (r"\brand::|\bthread_rng\b|\bgetrandom\b", "random"),
+              (r"\bthread::", "thread"), (r"\benv::vars?(_os)?\b", "env"), (r"\bprocess::id\b", "pid"),
+              (r"\{:p\}|\{:#?p\}", "pointer-format"), (r"\bas\s+\*(?:const|mut)\b|\bas_ptr\(\)|\bRc::as_ptr\b|\baddr_of!?", "pointer-cast"),
+              (r"\bptr::hash\b", "pointer-hash"), (r"\bread_dir\b", "readdir"), (r"\bRandomState\b|\bDefaultHasher\b", "hasher-state"),
+              (r"\bpar_iter\b|\brayon::", "parallel"), (r"\bstatic\s+mut\b|\bAtomic\w+\b|\bMutex\b|\bRwLock\b", "shared-state")]
     for f in files:
         if f == "assertions.rs": continue  # test-only macros
         src = strip_comments(strip_tests(read("src/" + f)))
@@ -222,6 +227,9 @@ def gen_sites():
         for ln, line in enumerate(lines_, 1):
             m = re.search(r"\bfn\s+(\w+)", line)
             if m: fn = m.group(1)
+            for pat, kind in NONDET:
+                if re.search(pat, line) and not re.match(r"\s*use\b", line):
+                    nondet.append((f, fn or "?", kind))
             for pat, kind in ((r"\.unwrap\(\)", "unwrap"), (r"\.expect\(", "expect"), (r"\bpanic!\(", "panic"),
                               (r"\bassert(?:_eq|_ne)?!\(", "assert"), (r"\bunreachable!\(", "unreachable")):
                 for _ in re.finditer(pat, line):
@@ -234,6 +242,9 @@ def gen_sites():
            "/-- every unwrap/expect/panic!/assert!/unreachable! : (file, function, kind), with multiplicity -/",
            "def panicSites : List (String × String × String) := [",
            ",\n".join(f'  ("{a}", "{b}", "{c}")' for a, b, c in panics), "]", "",
+           "/-- every use, in non-test code, of an API whose result can differ from run to run: (file, function, kind) -/",
+           "def nondetSources : List (String × String × String) := [",
+           ",\n".join(f'  ("{a}", "{b}", "{c}")' for a, b, c in nondet), "]", "",
            "end Generated", ""]
     return "\n".join(out)
 
